@@ -7,6 +7,7 @@ import (
 	"os/exec"
 	"runtime/debug"
 	"sort"
+	"strconv"
 	"strings"
 	"sync"
 	"time"
@@ -79,7 +80,7 @@ type Ctx struct {
 	dom        map[*sym.Term]*[4]uint64 // current value set of 8-bit variables (refined by single-variable PC atoms)
 	rel        map[*sym.Term]bool       // variable occurs in a multi-variable PC constraint
 	tvars      map[*sym.Term][]*sym.Term
-	DomDecided int // branch decisions settled by exhaustive evaluation over byte domains
+	DomDecided int  // branch decisions settled by exhaustive evaluation over byte domains
 	XAll       bool // cross-check also the unsat verdicts that prune a branch
 
 	// ProbeFn, when set by a harness, turns a model of the path condition into a concrete instance of the path;
@@ -358,7 +359,7 @@ func (c *Ctx) Branch(cond *sym.Term) bool {
 		panic(pathEnd{Reason: "solver-unknown", Detail: "branch"})
 	}
 	if rt == sym.Unsat {
-		if c.XAll {
+		if c.XAll && c.xSample() {
 			c.crossCheck(rt, []*sym.Term{cond})
 		}
 		c.trace = append(c.trace, false)
@@ -370,7 +371,7 @@ func (c *Ctx) Branch(cond *sym.Term) bool {
 		panic(pathEnd{Reason: "solver-unknown", Detail: "branch"})
 	}
 	if rf == sym.Unsat {
-		if c.XAll {
+		if c.XAll && c.xSample() {
 			c.crossCheck(rf, []*sym.Term{neg})
 		}
 		c.trace = append(c.trace, true)
@@ -417,6 +418,24 @@ func (c *Ctx) Sat(extra ...*sym.Term) (sym.Result, map[string]uint64) {
 		}
 	}
 	return r, nil
+}
+
+// xSample: of the unsat verdicts that prune a branch every xEvery-th (per solver process) is cross-checked.
+func (c *Ctx) xSample() bool {
+	c.S.Stats.XPruneSeen++
+	return c.S.Stats.XPruneSeen%xEvery() == 0
+}
+
+var xEveryN int
+
+func xEvery() int {
+	if xEveryN == 0 {
+		xEveryN = 4
+		if v, err := strconv.Atoi(os.Getenv("VERIF_XCHECK_EVERY")); err == nil && v > 0 {
+			xEveryN = v
+		}
+	}
+	return xEveryN
 }
 
 // crossCheck hands the verdict of a final assertion (or, with XAll, of a branch that is about to be pruned) to
